@@ -141,13 +141,19 @@ class LockClient(ir.Client):
                             "%s is shared between threads and is %s here while the unit's mutex is not held" %
                             (r["n"], "written" if write else "read"))
                 else:
-                    if (write or deref) and not is_cond and gep >= 0 and gep < epoch:
+                    # gep: per shared variable, the critical section (epoch) in which it was last tested or written.
+                    # Acting on a variable whose last test belongs to an earlier critical section is check-then-act;
+                    # re-testing another variable does not refresh it.
+                    g = dict(gep) if gep != -1 else {}
+                    last = g.get(gid)
+                    if (write or deref) and not is_cond and last is not None and last < epoch:
                         self._v("R18.6-stale-guard", node, "%s of %s after the mutex was released and re-acquired" %
                                 ("write" if write else "dereference", r["n"]),
-                                "this access relies on a test of the shared state made in an earlier critical section; "
-                                "another thread may have changed it in between (check-then-act)")
+                                "this access relies on a test of %s made in an earlier critical section; "
+                                "another thread may have changed it in between (check-then-act)" % r["n"])
                     if is_cond or write:
-                        gep = epoch
+                        g[gid] = epoch
+                        gep = tuple(sorted(g.items()))
             elif gid in self.init_only and not in_assert:
                 trig = self.init_only[gid]
                 self.accesses += 1
